@@ -6,7 +6,7 @@ import ast
 import itertools
 from typing import Dict, List, Optional, Set, Tuple
 
-from ..astutil import calls_in, dotted, dotted_reads, name_stores, test_atoms, unparse, walk_local, walk_stmts
+from ..astutil import ancestors, calls_in, dotted, dotted_reads, lexical_guards, name_stores, names_in, parent_map, test_atoms, unparse, walk_local, walk_stmts
 from ..cfg import no_exc
 from ..report import Registry, sub
 from ._helpers_rules_d import call_nodes, callee_is, const_is, guard_atom_set
@@ -26,6 +26,17 @@ R = Registry(
 )
 
 PERS = "orm/persistence.py"
+
+_EG_CACHE: Dict[Tuple[int, int], list] = {}
+
+
+def _eg(g, n: int):
+    """Memoised g.edge_guards(n) (the CFG objects are cached per function by ctx.cfg; the cache entry keeps the
+    graph alive so that id(g) stays unique)."""
+    k = (id(g), n)
+    if k not in _EG_CACHE:
+        _EG_CACHE[k] = (g, g.edge_guards(n))
+    return _EG_CACHE[k][1]
 EMITTERS = {
     "_emit_update_statements": "_collect_update_commands",
     "_emit_post_update_statements": "_collect_post_update_commands",
@@ -174,7 +185,7 @@ def r2(ctx):
                 ctx.violation(f"{f.key}:{aspect}", "cannot hold: the emitter never raises StaleDataError", f.loc)
             continue
         # (a) every execute is followed by the outermost test that guards the raise
-        guards = g.edge_guards(raises[0])
+        guards = _eg(g, raises[0])
         ctx.require(guards, f"{ename}: StaleDataError raise is unconditional")
         # count-locals: numbers derived from rowcount / len / constants
         count_locals = set()
@@ -228,16 +239,51 @@ def r2(ctx):
                         continue
                     if not _allowed_read(r, flag, count_locals):
                         offenders.append(r)
-        ctx.check(not offenders, f"{f.key}:stale-condition-vocabulary",
-                  f"whether a stale versioned row raises StaleDataError also depends on {sorted(set(offenders))}: with that condition false a "
-                  f"version mismatch passes silently (it must be disjoined with `{flag}`)",
-                  "depends only on row counts, dialect rowcount support and the versioning flag", f.loc)
-        # (c) boolean "warn only" locals are never set for versioned rows
-        flags_true = [n.id for n in g.nodes if n.kind == "stmt" and isinstance(n.stmt, ast.Assign) and const_is(n.stmt.value, True)
-                      and any(isinstance(t, ast.Name) and "warn" in t.id for t in n.stmt.targets)]
-        if flags_true:
-            good = all((flag, False) in guard_atom_set(g, n) for n in flags_true)
-            ctx.check(good, f"{f.key}:warn-only-not-for-versioned", "the warn-instead-of-raise mode can be selected for a versioned table", f"warn-only requires not {flag}", f.loc)
+        # one instance per foreign condition (a second foreign condition is a second violation, never absorbed by a
+        # known finding about the first one); the plain key records the emitter whose vocabulary is clean
+        if not offenders:
+            ctx.ok(f"{f.key}:stale-condition-vocabulary", "depends only on row counts, dialect rowcount support and the versioning flag")
+        for off in sorted(set(offenders)):
+            ctx.violation(f"{f.key}:stale-condition-vocabulary[{off}]",
+                          f"whether a stale versioned row raises StaleDataError also depends on `{off}`: with that condition false a "
+                          f"version mismatch passes silently (it must be disjoined with `{flag}`)", f.loc)
+        # (c) a boolean local that diverts from the raise (`if only_warn: warn else: raise`) can become true only for
+        # tables without the version column: every binding is False, or True under `not flag`, or an expression
+        # that implies `not flag`
+        divert = set()
+        for t, pol in guards:
+            if getattr(t, "lineno", 0) < getattr(first_test, "lineno", 0):
+                continue
+            for txt, p2 in test_atoms(t, pol):
+                if not p2 and txt.isidentifier() and txt != flag:
+                    divert.add(txt)
+        divert = {d for d in divert if d not in f.params
+                  and any(n == d and v is not None and not isinstance(v, ast.Constant) or (n == d and const_is(v, True)) for n, v, st in name_stores(f.node))
+                  and all(v is not None and (isinstance(v, ast.Constant) and isinstance(v.value, bool) or isinstance(v, (ast.BoolOp, ast.UnaryOp, ast.Compare, ast.Name)))
+                          for n, v, st in name_stores(f.node) if n == d)}
+        for d in sorted(divert):
+            bad = []
+            for n, v, st in name_stores(f.node):
+                if n != d or const_is(v, False):
+                    continue
+                if (flag, False) in set(test_atoms(v, True)) and not const_is(v, True):
+                    continue
+                nodes = g.nodes_for(st)
+                if const_is(v, True) and nodes and all((flag, False) in guard_atom_set_cached(g, x) for x in nodes):
+                    continue
+                bad.append(f"line {st.lineno}: {d} = {unparse(v)}")
+            ctx.check(not bad, f"{f.key}:warn-only-not-for-versioned",
+                      f"the warn-instead-of-raise mode (`{d}`) can be selected for a versioned table: " + "; ".join(bad),
+                      f"`{d}` can be true only under not {flag}", f.loc)
+
+
+def guard_atom_set_cached(g, node: int) -> Set:
+    out = set()
+    for t, pol in _eg(g, node):
+        out.update(test_atoms(t, pol))
+    return out
+
+
 
 
 def _bool_eval(expr, asg, defs, depth=0):
@@ -290,7 +336,7 @@ def r3(ctx):
         M = "connection.dialect.supports_sane_multi_rowcount"
         bad = []
         for n in many:
-            guards = g.edge_guards(n)
+            guards = _eg(g, n)
             atoms: Set[str] = set()
             for t, pol in guards:
                 _atoms_of(t, defs, atoms)
@@ -344,6 +390,346 @@ def r4(ctx):
                 good = True
         ctx.check(good, f"{f.key}:loaded-version-source", "update_version_id is not read from the COMMITTED state of the version column",
                   "mapper._get_committed_state_attr_by_column(state, dict_, mapper.version_id_col)", f.loc)
+
+
+
+# ---------------------------------------------------------------------- C44-R5: when may a versioned row be skipped
+# Mapper attributes that enumerate the column properties of ALL tables of the (joined-inheritance) mapper.
+MAPPER_WIDE = {
+    "_columntoproperty": "column -> property for every column of every table the mapper persists to",
+    "_props": "every mapped property of the mapper",
+    "attrs": "every mapped property of the mapper (public view of _props)",
+    "column_attrs": "every ColumnProperty of the mapper",
+    "iterate_properties": "every mapped property of the mapper",
+}
+_VIEW_METHODS = {"values", "items", "keys"}
+_COPY_CALLS = {"list", "tuple", "set", "frozenset", "sorted", "iter", "reversed"}
+
+
+def _loop_of(pm, node):
+    """The loop a `continue` / `break` statement belongs to."""
+    child = node
+    for anc in ancestors(pm, node):
+        if isinstance(anc, (ast.For, ast.While, ast.AsyncFor)) and any(child is x for x in anc.body):
+            return anc
+        if isinstance(anc, (ast.FunctionDef, ast.AsyncFunctionDef, ast.Lambda)):
+            return None
+        child = anc
+    return None
+
+
+def _strip_views(expr, single_defs, depth=0):
+    """`list(X.values())`, `X.items()`, a local bound once to such an expression -> X."""
+    while depth < 6:
+        depth += 1
+        if isinstance(expr, ast.Name) and expr.id in single_defs:
+            expr = single_defs[expr.id]
+        elif isinstance(expr, ast.Call) and isinstance(expr.func, ast.Name) and expr.func.id in _COPY_CALLS and len(expr.args) == 1:
+            expr = expr.args[0]
+        elif isinstance(expr, ast.Call) and isinstance(expr.func, ast.Attribute) and expr.func.attr in _VIEW_METHODS and not expr.args:
+            expr = expr.func.value
+        else:
+            break
+    return expr
+
+
+@R.rule("C44-R5", floor=3, template="T-GUARD/T-FLOW",
+        desc="_collect_update_commands: a state whose table carries the version column is skipped (no version-checking "
+             "UPDATE) only in the no-change-found exit of a history scan; that scan ranges over the column properties "
+             "of ALL tables of the state's own mapper and leaves (-> UPDATE is emitted) on any added value")
+def r5(ctx):
+    f = ctx.func(f"{PERS}::_collect_update_commands")
+    pm = parent_map(f.node)
+    outer = [n for n in walk_local(f.node) if isinstance(n, ast.For) and "update_version_id" in names_in(n.target)]
+    ctx.require(len(outer) == 1, "_collect_update_commands: per-state loop binding update_version_id not found")
+    outer = outer[0]
+    targets = names_in(outer.target)
+    # the versioned branch: `update_version_id is not None and M.version_id_col in M._cols_by_table[table]`
+    vb, mname = None, None
+    for st in walk_stmts(outer.body):
+        if not isinstance(st, ast.If):
+            continue
+        atoms = dict(test_atoms(st.test, True))
+        if atoms.get("update_version_id is None") is False:
+            for txt, pol in atoms.items():
+                if pol and ".version_id_col in " in txt and "._cols_by_table[table]" in txt:
+                    vb, mname = st, txt.split(".version_id_col", 1)[0]
+    ctx.require(vb is not None and mname in targets, "_collect_update_commands: versioned branch not found")
+    stores = name_stores(f.node)
+    cnt: Dict[str, int] = {}
+    for n, v, st in stores:
+        cnt[n] = cnt.get(n, 0) + 1
+    single_defs = {n: v for n, v, st in stores if v is not None and cnt[n] == 1}
+    skips = [n for n in walk_stmts(vb.body) if isinstance(n, ast.Continue) and _loop_of(pm, n) is outer]
+    kbase = f.key
+    if not skips:
+        for aspect in ("skip-only-after-history-scan", "history-scan-domain", "history-scan-leaves-on-added"):
+            ctx.ok(f"{kbase}:{aspect}", "a versioned row is never skipped")
+        return
+    scans, stray = [], []
+    for c in skips:
+        scan = None
+        child = c
+        for anc in ancestors(pm, c):
+            if anc is vb:
+                break
+            if isinstance(anc, ast.For) and any(child is x for x in anc.orelse):
+                scan = anc
+                break
+            child = anc
+        if scan is None:
+            stray.append(c)
+        elif scan not in scans:
+            scans.append(scan)
+    ctx.check(not stray, f"{kbase}:skip-only-after-history-scan",
+              f"a state whose table carries the version column is skipped (no version check, no increment) at line(s) "
+              f"{[c.lineno for c in stray]} without a scan of the state's attribute history finding no change", 
+              f"{len(skips)} skip exit(s), each the nothing-found exit of a history scan", f.loc)
+    if not scans:
+        for aspect in ("history-scan-domain", "history-scan-leaves-on-added"):
+            ctx.violation(f"{kbase}:{aspect}", "cannot hold: versioned rows are skipped without any history scan", f.loc)
+        return
+    dom_bad, dom_ok, test_bad = [], [], []
+    for scan in scans:
+        dom = _strip_views(scan.iter, single_defs)
+        d = dotted(dom) if isinstance(dom, (ast.Attribute, ast.Name)) else None
+        reads = names_in(dom)
+        attrs = {n.attr for n in ast.walk(dom) if isinstance(n, ast.Attribute)}
+        table_scoped = ("table" in reads and "table" in f.params) or any(a.endswith("_table") or "by_table" in a or a.endswith("_to_col") for a in attrs)
+        # locals derived from the table (pks, propkey_to_col ...)
+        for nm in reads:
+            v = single_defs.get(nm)
+            if v is not None and "table" in names_in(v):
+                table_scoped = True
+        if table_scoped:
+            dom_bad.append(f"line {scan.lineno}: the scan ranges over `{unparse(scan.iter)}`, the columns/properties of ONE table; a change "
+                           f"that lives only in another table of the mapper (joined inheritance with an intermediate table) is not seen")
+        elif d is not None and d.count(".") == 1 and d.split(".")[0] == mname and d.split(".")[1] in MAPPER_WIDE:
+            dom_ok.append(d)
+        elif d is not None and d.split(".")[0] != mname or (d is not None and d.count(".") > 1 and d.rsplit(".", 1)[1] in MAPPER_WIDE):
+            dom_bad.append(f"line {scan.lineno}: the scan ranges over `{unparse(scan.iter)}`, which is not the property collection of the state's own mapper `{mname}` "
+                           f"(an ancestor mapper does not know the columns of the subclass tables)")
+        else:
+            ctx.error(f"_collect_update_commands: cannot classify the domain `{unparse(scan.iter)}` of the history scan at line {scan.lineno} "
+                      f"(known mapper-wide collections: {sorted(MAPPER_WIDE)})")
+        # the scan leaves on an added value
+        hist = {}
+        for n, v, st in name_stores(scan):
+            if isinstance(v, ast.Call) and isinstance(v.func, ast.Attribute) and v.func.attr == "get_history":
+                hist[n] = v
+        loopvars = set(names_in(scan.target))
+        derived = set(loopvars)
+        for _ in range(3):
+            for n, v, st in name_stores(scan):
+                if v is not None and names_in(v) & derived:
+                    derived.add(n)
+        breaks = [b for b in walk_stmts(scan.body) if isinstance(b, ast.Break) and _loop_of(pm, b) is scan]
+        if not breaks:
+            test_bad.append(f"line {scan.lineno}: the scan never leaves early, so every state without own-table changes is skipped")
+        for b in breaks:
+            atoms = []
+            for t, pol in lexical_guards(pm, b, stop=scan):
+                atoms.extend(test_atoms(t, pol))
+            good, wrong = False, []
+            for txt, pol in atoms:
+                for h, call in hist.items():
+                    if txt in (f"{h}.added", f"{h}.has_changes()") and pol:
+                        recv_names = names_in(call.func.value)
+                        a0 = call.args[0] if call.args else None
+                        if (recv_names & derived) and isinstance(a0, ast.Name) and a0.id in targets:
+                            good = True
+                        else:
+                            wrong.append(f"{txt} (history of `{unparse(call.func.value)}` is not that of the scanned property of this state)")
+                    elif txt.startswith(h + "."):
+                        wrong.append(f"{'' if pol else 'not '}{txt}")
+            if not good:
+                if wrong:
+                    test_bad.append(f"line {b.lineno}: the scan leaves on {wrong}, not on an added (new) value of the scanned property")
+                else:
+                    ctx.error(f"_collect_update_commands: cannot read the exit test of the history scan at line {b.lineno}")
+    ctx.check(not dom_bad, f"{kbase}:history-scan-domain", "; ".join(dom_bad), f"scan over {dom_ok} (all tables of the state's mapper)", f.loc)
+    ctx.check(not test_bad, f"{kbase}:history-scan-leaves-on-added", "; ".join(test_bad), "leaves the scan (-> versioned UPDATE) when get_history(state, ..).added is non-empty", f.loc)
+
+
+# ---------------------------------------------------------------------- C44-R6: a countable mismatch raises
+def _boolish(v) -> bool:
+    if isinstance(v, ast.Constant):
+        return isinstance(v.value, bool)
+    return isinstance(v, (ast.BoolOp, ast.Compare, ast.Name, ast.Attribute)) or (isinstance(v, ast.UnaryOp) and isinstance(v.op, ast.Not))
+
+
+def _single_record_atom(e) -> bool:
+    """`len(x) == 1` / `1 == len(x)`"""
+    if isinstance(e, ast.Compare) and len(e.ops) == 1 and isinstance(e.ops[0], ast.Eq):
+        a, b = e.left, e.comparators[0]
+        for x, y in ((a, b), (b, a)):
+            if isinstance(x, ast.Call) and isinstance(x.func, ast.Name) and x.func.id == "len" and isinstance(y, ast.Constant) and y.value == 1:
+                return True
+    return False
+
+
+def _atoms6(expr, env, out, depth=0):
+    if isinstance(expr, ast.Constant):
+        return
+    if isinstance(expr, ast.UnaryOp) and isinstance(expr.op, ast.Not):
+        return _atoms6(expr.operand, env, out, depth)
+    if isinstance(expr, ast.BoolOp):
+        for v in expr.values:
+            _atoms6(v, env, out, depth)
+        return
+    if isinstance(expr, ast.Name) and expr.id in env and depth < 6:
+        return _atoms6(env[expr.id], env, out, depth + 1)
+    out[unparse(expr)] = expr
+
+
+def _eval6(expr, asg, env, depth=0):
+    if isinstance(expr, ast.Constant):
+        return bool(expr.value)
+    if isinstance(expr, ast.UnaryOp) and isinstance(expr.op, ast.Not):
+        return not _eval6(expr.operand, asg, env, depth)
+    if isinstance(expr, ast.BoolOp):
+        vals = [_eval6(v, asg, env, depth) for v in expr.values]
+        return all(vals) if isinstance(expr.op, ast.And) else any(vals)
+    if isinstance(expr, ast.Name) and expr.id in env and depth < 6:
+        return _eval6(env[expr.id], asg, env, depth + 1)
+    return asg[unparse(expr)]
+
+
+def _sat(guards, fixed, env, multi_record=False):
+    """An assignment of the free atoms under which every (test, polarity) holds, or None."""
+    atoms: Dict[str, ast.AST] = {}
+    for t, pol in guards:
+        _atoms6(t, env, atoms)
+    forced = dict(fixed)
+    if multi_record:
+        for txt, e in atoms.items():
+            if _single_record_atom(e):
+                forced[txt] = False
+    free = sorted(a for a in atoms if a not in forced)
+    if len(free) > 14:
+        return "too-many"
+    for vals in itertools.product([True, False], repeat=len(free)):
+        asg = dict(zip(free, vals))
+        asg.update(forced)
+        if all(_eval6(t, asg, env) == pol for t, pol in guards):
+            return asg
+    return None
+
+
+@R.rule("C44-R6", floor=6, template="T-BOOL",
+        desc="each emitter, each way of executing (one statement per row / executemany): for a versioned table on a "
+             "dialect that counts the rows of the statements issued that way reliably, a count mismatch can reach the "
+             "StaleDataError raise for ANY number of records (in particular 2 or more); every reaching definition of a "
+             "boolean local in the decision is taken into account")
+def r6(ctx):
+    S = "connection.dialect.supports_sane_rowcount"
+    M = "connection.dialect.supports_sane_multi_rowcount"
+    for ename in EMITTERS:
+        f = ctx.func(f"{PERS}::{ename}")
+        flag = _version_flag_loose(ctx, f)
+        ctx.require(flag, f"{ename}: versioning flag not found")
+        g = ctx.cfg(f)
+        pm = parent_map(f.node)
+        raises = g.find(lambda n: n.kind == "stmt" and isinstance(n.stmt, ast.Raise) and n.stmt.exc is not None and "StaleDataError" in unparse(n.stmt.exc).split("(")[0])
+        if not raises:
+            for kind in ("row-by-row", "executemany"):
+                ctx.violation(f"{f.key}:mismatch-raises-when-countable[{kind}]", "cannot hold: the emitter never raises StaleDataError", f.loc)
+            continue
+        stores = name_stores(f.node)
+        by_name: Dict[str, list] = {}
+        for n, v, st in stores:
+            by_name.setdefault(n, []).append((v, st))
+        single_defs = {n: d[0][0] for n, d in by_name.items() if len(d) == 1 and d[0][0] is not None and _boolish(d[0][0]) and n != flag}
+        multi_defs = {n: d for n, d in by_name.items() if len(d) > 1 and all(v is not None and _boolish(v) for v, st in d) and n != flag}
+        listy = {n for n, v, st in stores if isinstance(v, (ast.ListComp, ast.List))}
+        is_exec = lambda c: isinstance(c.func, ast.Attribute) and c.func.attr == "execute" and dotted(c.func.value) == "connection"
+        sites = {"row-by-row": [], "executemany": []}
+        for n in call_nodes(g, is_exec):
+            for part in calls_in(g.node(n).stmt) if not isinstance(g.node(n).stmt, (ast.For, ast.If, ast.While, ast.With)) else []:
+                if is_exec(part):
+                    many = len(part.args) >= 2 and isinstance(part.args[1], ast.Name) and part.args[1].id in listy
+                    sites["executemany" if many else "row-by-row"].append(n)
+        ctx.require(sites["row-by-row"] and sites["executemany"], f"{ename}: expected both row-by-row and executemany execute sites")
+        # one iteration of the outermost loop around the raise
+        loops = [a for a in ancestors(pm, g.node(raises[0]).stmt) if isinstance(a, ast.For)]
+        avoid = [n for n in g.nodes_for(loops[-1]) if g.node(n).kind == "for"] if loops else []
+        reach_cache: Dict[int, Set[int]] = {}
+
+        def within(a):
+            if a not in reach_cache:
+                reach_cache[a] = g.reachable([a], avoid=avoid)
+            return reach_cache[a]
+
+        for kind, nodes in sites.items():
+            scenarios = [{flag: True, S: True, M: True}] + ([{flag: True, S: True, M: False}] if kind == "row-by-row" else [])
+            bad, evaluated = [], 0
+            for e in sorted(set(nodes)):
+                ge = _eg(g, e)
+                for fixed in scenarios:
+                    label = f"{flag}, reliable single-statement counts, executemany counts {'reliable' if fixed[M] else 'NOT reliable'}"
+                    reachable_raise = False
+                    blockers: List[str] = []
+                    feasible_site = False
+                    for r in raises:
+                        gr = _eg(g, r)
+                        # multi-definition boolean locals read by the decision: definitions that lie on a path with e
+                        names_read = set()
+                        for t, pol in ge + gr:
+                            stack = [t]
+                            seen_n = set()
+                            while stack:
+                                x = stack.pop()
+                                for nm in names_in(x):
+                                    if nm in seen_n:
+                                        continue
+                                    seen_n.add(nm)
+                                    if nm in single_defs:
+                                        stack.append(single_defs[nm])
+                                    names_read.add(nm)
+                        choices = []
+                        for nm in sorted(names_read & set(multi_defs)):
+                            cands = []
+                            for v, st in multi_defs[nm]:
+                                dn = [x for x in g.nodes_for(st) if g.node(x).kind == "stmt"]
+                                if not dn:
+                                    continue
+                                d = dn[0]
+                                if r in within(d) and (e in within(d) or d in within(e)):
+                                    if _sat(_eg(g, d), fixed, single_defs) is not None:
+                                        cands.append((nm, v, st))
+                            if cands:
+                                choices.append(cands)
+                        for combo in itertools.product(*choices):
+                            env = dict(single_defs)
+                            env.update({nm: v for nm, v, st in combo})
+                            if _sat(ge, fixed, env) is None:
+                                continue  # this way of executing is not used in the scenario
+                            feasible_site = True
+                            res = _sat(ge + gr, fixed, env, multi_record=True)
+                            ctx.require(res != "too-many", f"{ename}: decision has too many atoms")
+                            if res is None:
+                                conj = []
+                                for t, pol in gr:
+                                    if pol and isinstance(t, ast.BoolOp) and isinstance(t.op, ast.And):
+                                        conj.extend((v, True) for v in t.values)
+                                    else:
+                                        conj.append((t, pol))
+                                why = []
+                                for t, pol in conj:
+                                    if _sat(ge + [(t, pol)], fixed, env, multi_record=True) is None:
+                                        chosen = [f"{nm} = {unparse(v)} at line {st.lineno}" for nm, v, st in combo if nm in names_in(t)]
+                                        why.append(f"`{'' if pol else 'not '}{unparse(t)}`" + (f" ({', '.join(chosen)})" if chosen else ""))
+                                blockers.append(" and ".join(why) if why else "the conjunction of its conditions")
+                            else:
+                                reachable_raise = True
+                    if not feasible_site:
+                        continue
+                    evaluated += 1
+                    if blockers:
+                        bad.append(f"execute at line {g.node(e).lineno} [{label}], 2+ records: a row-count mismatch cannot reach the StaleDataError raise; it requires {' / '.join(sorted(set(blockers)))}, which is false here")
+            ctx.check(not bad, f"{f.key}:mismatch-raises-when-countable[{kind}]", " | ".join(bad),
+                      f"{len(set(nodes))} site(s), {evaluated} reachable (site, capability) scenario(s): StaleDataError reachable for any record count" if evaluated
+                      else f"{len(set(nodes))} site(s): this way of executing is never used for a versioned table with countable rows", f.loc)
 
 
 # ---------------------------------------------------------------------- self-test battery
